@@ -244,6 +244,15 @@ func isDefineStmt(stmt ast.Stmt) bool {
 	return ok && assign.Tok == token.DEFINE
 }
 
+func hasDeclStmt(stmts []ast.Stmt) bool {
+	for _, stmt := range stmts {
+		if isDefineStmt(stmt) || instanceof[*ast.DeclStmt](stmt) {
+			return true
+		}
+	}
+	return false
+}
+
 func identicalWithoutTypeParam(x, y types.Type) bool {
 	unwrapTyParam := func(ty types.Type) types.Type {
 		if named, ok := ty.(*types.Named); ok {
